@@ -54,6 +54,8 @@ def calculate_score(str1: str, str2: str, partial_match=False):
             if ch1 == ch2:
                 found = True
                 score += max_length - (i if acronym else j)
+                # matched character is consumed: it can't match next one as well
+                j += 1
                 break
 
             # add acronym bonus for exactly next match after unmatched `-`
